@@ -12,6 +12,7 @@ import (
 	"strconv"
 	"strings"
 	"time"
+	"unicode/utf8"
 
 	"golang.org/x/tools/go/ssa"
 )
@@ -979,6 +980,51 @@ func (ex *Exec) exec(fr *frame, ins ssa.Instruction) {
 		ex.spawn(thunk)
 	case *ssa.MakeMap:
 		fr.env[i] = &MapV{m: map[interface{}]Value{}}
+	case *ssa.Range:
+		// iteration over a map (in insertion order: Go's order is unspecified, code that depends on it is
+		// outside every claim) or over the runes of a string; the key snapshot is taken at the start
+		switch x := ex.get(fr, i.X).(type) {
+		case *MapV:
+			it := &rangeIter{m: x}
+			if x != nil {
+				it.keys = append([]interface{}(nil), x.keys...)
+			}
+			fr.env[i] = it
+		case string:
+			fr.env[i] = &rangeIter{str: x, isStr: true}
+		default:
+			panic(&GoPanic{Kind: "unsupported", Msg: fmt.Sprintf("range over %T", x), Pos: ex.pos2s(i.Pos())})
+		}
+	case *ssa.Next:
+		it := ex.get(fr, i.Iter).(*rangeIter)
+		tt := i.Type().(*types.Tuple)
+		if it.isStr {
+			if it.pos >= len(it.str) {
+				fr.env[i] = Tuple{false, int64(0), int64(0)}
+				return
+			}
+			r, w := utf8.DecodeRuneInString(it.str[it.pos:])
+			fr.env[i] = Tuple{true, int64(it.pos), int64(r)}
+			it.pos += w
+			return
+		}
+		for it.pos < len(it.keys) {
+			k := it.keys[it.pos]
+			it.pos++
+			if v, ok := it.m.m[k]; ok { // entries deleted during the iteration are skipped
+				fr.env[i] = Tuple{true, Value(k), v}
+				return
+			}
+		}
+		// exhausted: k and v are not read (their static types are Invalid when the loop ignores them)
+		zk, zv := Value(nil), Value(nil)
+		if tt.At(1).Type() != types.Typ[types.Invalid] {
+			zk = ex.zero(tt.At(1).Type())
+		}
+		if tt.At(2).Type() != types.Typ[types.Invalid] {
+			zv = ex.zero(tt.At(2).Type())
+		}
+		fr.env[i] = Tuple{false, zk, zv}
 	case *ssa.MapUpdate:
 		m := ex.get(fr, i.Map).(*MapV)
 		if m == nil {
@@ -1297,6 +1343,34 @@ func (ex *Exec) builtin(f *ssa.Builtin, args []Value, c *ssa.CallCommon, site ss
 		return int64(n)
 	case "print", "println":
 		return nil
+	case "delete":
+		if m, _ := args[0].(*MapV); m != nil {
+			k := ex.mapKey(args[1])
+			if _, ok := m.m[k]; ok {
+				delete(m.m, k)
+				for j, kk := range m.keys {
+					if kk == k {
+						m.keys = append(m.keys[:j:j], m.keys[j+1:]...)
+						break
+					}
+				}
+			}
+		}
+		return nil
+	case "clear":
+		switch a := args[0].(type) {
+		case *MapV:
+			if a != nil {
+				a.m = map[interface{}]Value{}
+				a.keys = nil
+			}
+			return nil
+		case SliceV:
+			for k := 0; k < a.n; k++ {
+				ex.store(a.b.cells[a.off+k], ex.zero(a.b.elem), ex.pos2s(site.Pos()))
+			}
+			return nil
+		}
 	case "close":
 		c, _ := args[0].(*ChanV)
 		if c == nil || c.closed {
